@@ -21,6 +21,9 @@ Inductive kase :=
 (* CP_PLSR: X_mean_, per-component loading vectors, X -> transform(X) *)
 | KPlsrTransform (xmean : tensor Q) (loads : list (list (tensor Q))) (X expected : tensor Q)
 | KPlsrPredict (xmean ymean : tensor Q) (loads : list (list (tensor Q))) (coef yload X expected : tensor Q)
+(* CP_PLSR.transform(X, Y)[1]: means, loadings, columns of coef_, Y loadings, X, Y -> Y score columns *)
+| KPlsrTransformY (xmean ymean : tensor Q) (loads : list (list (tensor Q))) (bs : list (list Q)) (qs : list (tensor Q))
+                  (X Y : tensor Q) (expected : list (list Q))
 (* T.mean(X, axis=0) and the centring *)
 | KMean (X expected : tensor Q)
 (* the whole of CP_PLSR.fit with a fixed number of passes (tol = 0: never stops early; tol huge: stops after the
@@ -82,6 +85,10 @@ Definition agree_k (k : kase) : bool :=
   | KPlsrPredict xm ym loads coef yl X e =>
       qt_close atol rtol (t_of_fx (plsr_predict Zfx (t_to_fx xm) (t_to_fx ym) (map (map t_to_fx) loads) (t_to_fx coef) (t_to_fx yl) (t_to_fx X))) e
   | KMean X e => qt_close atol rtol (t_of_fx (mean0 Zfx (t_to_fx X))) e
+  | KPlsrTransformY xm ym loads bs qs X Y e =>
+      let Tc := transform_cols Zfx (center Zfx (t_to_fx X) (t_to_fx xm)) (map (map t_to_fx) loads) in
+      all2 (fun a x => q_list_close atol rtol (map of_fx a) x)
+           (ytransform_cols Zfx (center Zfx (t_to_fx Y) (t_to_fx ym)) Tc (map (map to_fx) bs) (map t_to_fx qs)) e
   | KPlsrFit n_iter ncomp tol itape btape X Y e_loads e_scores e_yloads e_yscores =>
       let r := fit_cp Zfx zsqrt (fun Z => map t_to_fx (init_of itape (t_of_fx Z)))
                       (fun G b => map to_fx (solve_of btape G b)) (to_fx tol) n_iter ncomp (t_to_fx X) (t_to_fx Y) in
